@@ -43,7 +43,7 @@ Theorem C01_literal_fraction_nearest : forall t,
   String.eqb (grp t 2) "" = false ->
   (String.eqb (grp t 5) "" = false \/ (String.eqb (grp t 7) "" = false /\ (signed_Z (grp t 7) < 0)%Z)) ->
   let '(p, q) := literal_rational (grp t 2) (grp t 5) (grp t 7) in
-  literal_value t = if f_is_inf (q2f p q) then None else Some (VFloat (q2f p q)).
+  literal_value t = Some (VFloat (q2f p q)).
 Proof. exact literal_fraction_nearest. Qed.
 Theorem C01_int_literal_grid :
   forallb (fun i => forallb (fun e => int_literal_ok i e) [0; 1; 2; 3; 5; 9]%Z) (map Z.of_nat (List.seq 0 2000)) = true.
